@@ -525,10 +525,17 @@ def _replay_abstract(c: Contract, vals: dict[str, Any], ev: Any) -> dict[str, An
     if not all(hasattr(g, "realize") or not isinstance(vals.get(n), SObj) or hasattr(vals.get(n), "register") for n, g in gens.items()):
         return {"confirmed": False, "note": "inputs are abstract (symbolic calendar) and have no concrete realisation"}
     tried = 0
+    last_err = ""
     first_ord = {n: ev(vals[n].ordinal) for n in cal_names}
     candidates = [dict(first_ord)] + [{n: o for n in cal_names} for o in range(19)]
-    if any(type(g).__name__ == "IsoAbsCalG" for g in gens.values()):
-        candidates = [{n: 0 for n in cal_names}]
+    iso_names = {n for n, g in gens.items() if type(g).__name__ == "IsoAbsCalG"}
+    if iso_names:
+        candidates = [{n: (0 if n in iso_names else o.get(n, 0)) for n in cal_names} for o in candidates]
+        seen_c: list[dict] = []
+        for o in candidates:
+            if o not in seen_c:
+                seen_c.append(o)
+        candidates = seen_c
     import random as _random
 
     from .contracts import Int as _IntGen
@@ -563,12 +570,14 @@ def _replay_abstract(c: Contract, vals: dict[str, Any], ev: Any) -> dict[str, An
             kind, value = call_real(c, cvals)
             ok, why = eval_cases_concrete(c, NS(cvals), kind, value)
             if why.startswith("precondition not satisfied") or why.startswith("contract evaluation error"):
+                last_err = why
                 continue
             if not ok:
                 return {"confirmed": True, "observed": f"{kind}: {_short(value)}", "why": why, "realised_inputs": {k: _short(v) for k, v in cvals.items()}, "calendar_ordinals": over, "found_by": "random search around the abstract counterexample" if randomised else "the solver's model"}
-        except Exception:  # noqa: BLE001
+        except Exception as ex:  # noqa: BLE001
+            last_err = f"{type(ex).__name__}: {ex}"
             continue
-    return {"confirmed": False, "note": f"symbolic-calendar counterexample did not reproduce on {tried} real calendars with the model's field values"}
+    return {"confirmed": False, "last_error": last_err, "note": f"symbolic-calendar counterexample did not reproduce on {tried} real calendars with the model's field values"}
 
 
 def _enumify(c: Contract, cvals: dict[str, Any]) -> dict[str, Any]:
